@@ -70,6 +70,19 @@ claim("C02", T + "path-sensitive coverage: enumeration of all acyclic CFG paths 
       "Decides that every SubBalance in a live deliver block is covered on every path by a sufficiency gate on the same account and coin (equal syntactically, by alias, or by an equality fact on that path) whose amount contains the debited value (or a pool-module charge bounded by it, or exactly the balance read), with the Multisend helper and the route's last-iteration debit as named idioms; every AddVolume lies behind a max-supply gate and every bancor SubReserve behind a reserve-underflow gate on every feasible path. Not decided: stakes, frozen funds, pool reserves, order volumes; numeric sufficiency when deliver recomputes a trade.",
       TRUST + "Assumes a pool-module mutator never charges more than the maximum amount it is given.", "DESIGN.md §4 C02")
 
+
+claim("C13", T + "sibling pairing with argument provenance over the three live pool handlers (PairCreate/PairMint/PairBurn ↔ pool-token volume and balance mutators)",
+      "K non-decrease, rounding and proportional-share arithmetic are numeric and NOT decided. Decides the pool-token pairing: pool creation registers the token with the returned liquidity, credits liquidity − Bound to the sender and exactly Bound to the zero address (which no transaction can debit, C05.debitor); adding liquidity passes the token's Volume() as total supply, mints and credits exactly the returned liquidity and debits the returned amounts; removing liquidity burns exactly data.Liquidity from volume and sender and credits the returned amounts; all on the token of the pool the data names.",
+      TRUST + "Pair-level arithmetic inside the swap module is not examined.", "DESIGN.md §4 C13")
+
+claim("C24", T + "field coverage over every convert/compile pair, dispatch-table exhaustiveness over every AddEvent argument type, key/count agreement and integer-width rule on the id tables",
+      "Decides that every event field is read by convert and written by compile from the compact field of the same name (addresses/keys through the id tables), that every event type ever handed to AddEvent is registered and dispatched by both CommitEvents and LoadEvents, that the id tables are saved and loaded under the same keys with the count the loaders' bounds assume, and that id types are wide enough — the uint16 public-key id is not (known finding, reproduced). Not decided: amino/JSON encoding, big.Int string round trips.",
+      TRUST, "DESIGN.md §4 C24")
+
+claim("C27", T + "dataflow shape of the fee computation: price-table field provenance per live handler, field coverage of commission.Price across import/vote/export/event/fee code, formula recognition in tx.Price/MulGasPrice/RunTx, burn pairing for ticker fees",
+      "Decides that every live handler's price comes from fields of the price table (found and repaired: CreateToken charged the CreateCoin entry), that every table field travels through import, vote, export, event and at least one fee computation, that RunTx computes gasPrice·(type price + bytes·PayloadByte), converts it through the pool only when the table coin is not the base coin and hands exactly that to Run, that the base value reaches the reward pool, and that ticker fees are taken out of the pool and credited to the zero address only for CreateCoin/CreateToken. Not decided: that the cheaper route is numerically cheaper; rounding.",
+      TRUST, "DESIGN.md §4 C27")
+
 PENDING = "check not built yet in this round; see DESIGN.md §4 for the planned static rule"
 for p in ["C%02d" % i for i in range(1, 30)]:
     if p not in CLAIMS and p != "C12":
